@@ -3,6 +3,7 @@ import GrcovModel.Drv.C11
 import GrcovModel.Drv.C11Partial
 import GrcovModel.Drv.C11Idem
 import GrcovModel.Drv.C11Glob
+import GrcovModel.Drv.C11Filter
 open Grcov.Drv.C11
 
 /-- part drivers first, then the property's own ops -/
@@ -18,6 +19,7 @@ def dispatch (line : String) : String :=
   | "c11.glob.match" :: args => Grcov.Drv.C11Glob.handleMatch args
   | "c11.glob.set" :: args => Grcov.Drv.C11Glob.handleSet args
   | "c11.glob.rewrite" :: args => Grcov.Drv.C11Glob.handleRewrite args
+  | "c11.filter.rewrite" :: args => Grcov.Drv.C11Filter.handleRewrite args
   | _ => step line
 
 partial def loop (h : IO.FS.Stream) (out : IO.FS.Stream) : IO Unit := do
